@@ -1120,6 +1120,7 @@ class Exec:
             t = self.truth(v, e.lineno)
             return (not t) if isinstance(t, bool) else V(z3.Not(t), BOOL)
         if isinstance(e.op, ast.USub):
+            v = self.unwrap(v, e.lineno)        # -None raises TypeError: obligation that the operand is not None
             if isinstance(v, V):
                 return V(-v.t, v.ty)
             return -v
